@@ -182,6 +182,35 @@ func sxgMut(args []string) error {
 					}
 				}
 			}
+			// headers that declare something about the payload (a length, a range, an encoding) are signed header fields, not
+			// instructions: the payload handed back is the one the signed digest commits to, whole, and damage behind the
+			// declared length is damage
+			for _, dh := range [][2]string{{"Content-Length", "5"}, {"Content-Length", "1"}, {"Content-Length", "0"}, {"Content-Length", fmt.Sprint(len(sp.payload))},
+				{"Content-Length", "99999"}, {"Content-Length", "abc"}, {"Content-Range", "bytes 0-4/5"}, {"Range", "bytes=0-4"}, {"Content-Encoding", "identity"}, {"Trailer", "Digest"}} {
+				spd := *sp
+				spd.resph = cloneHeader(sp.resph)
+				spd.reqh = cloneHeader(sp.reqh)
+				spd.resph.Add(dh[0], dh[1])
+				var signedD []map[string]interface{}
+				ed, err := buildRecordedErr(&spd, kc, &signedD)
+				if err != nil {
+					continue
+				}
+				note := "declaring header " + dh[0] + ": " + dh[1]
+				ctx.emitVer(cloneEx(ed), kc, mid, 0, signedD, true, nil, false, false, note)
+				for _, tam := range []func(x *sxg.Exchange){
+					func(x *sxg.Exchange) { x.Payload[len(x.Payload)-1] ^= 1 },
+					func(x *sxg.Exchange) { x.Payload = x.Payload[:len(x.Payload)-1] },
+					func(x *sxg.Exchange) { x.Payload = x.Payload[:8+spd.rs] },
+					func(x *sxg.Exchange) { x.Payload = append(x.Payload, 'x') },
+				} {
+					x := cloneEx(ed)
+					if len(x.Payload) > 8+spd.rs {
+						tam(x)
+						ctx.emitVer(x, kc, mid, 0, signedD, false, nil, false, false, note+" + payload damaged behind the declared length")
+					}
+				}
+			}
 			// file-level mutations
 			try := func(m []byte, note string) {
 				e2, rerr := readBack(m)
